@@ -1,4 +1,5 @@
 import Ufw.Props.C03
+import Ufw.Tie.RegTable
 #print axioms Ufw.Props.C03.firstHole_none_iff
 #print axioms Ufw.Props.C03.firstHole_some
 #print axioms Ufw.Props.C03.block_read_spec
@@ -8,3 +9,5 @@ import Ufw.Props.C03
 #print axioms Ufw.Props.C03.foreach_visits
 #print axioms Ufw.Props.C03.foreach_stops
 #print axioms Ufw.Props.C03.foreach_uninitialised
+#print axioms Ufw.Tie.RegTable.const_rds_size
+#print axioms Ufw.Tie.RegTable.const_enums
